@@ -1388,7 +1388,7 @@ func (e *Exec) convertFn(from, to types.Type, st string) func(Value) Value {
 		signed := isSigned(from)
 		f32 := to.Underlying().(*types.Basic).Kind() == types.Float32
 		return func(a Value) Value {
-			r := fFromInt(a.(*Term), signed)
+			r := fFromInt(e.subst(a.(*Term)), signed)
 			if f32 {
 				r = fToFloat32(r)
 			}
